@@ -62,6 +62,22 @@ func TestVerifNoPanicPositional(t *testing.T) {
 			t.Errorf("FAILING-INPUT BuildFunc call: %v", r.Err())
 		}
 	})
+	noPanic(t, "BuildFunc with nil input", func() {
+		out, err := NewValueSet([]Value{{Name: "r", Type: reflect.TypeOf(0)}})
+		if err != nil {
+			t.Fatal(err)
+		}
+		f, err := BuildFunc(nil, out, func(in, out *ValueSet) error {
+			out.Named("r").Value = reflect.ValueOf(5)
+			return nil
+		})
+		if err != nil {
+			t.Fatal(err)
+		}
+		if r := f.Call(); r.Err() != nil {
+			t.Errorf("FAILING-INPUT BuildFunc with nil input: call failed: %v", r.Err())
+		}
+	})
 	noPanic(t, "Redefine of func(a, b int)", func() {
 		f := MustFunc(NewFunc(func(a, b int) int { return a + b }))
 		if _, err := f.Redefine(); err != nil {
@@ -196,5 +212,132 @@ func TestVerifNoPanicCycles(t *testing.T) {
 				t.Errorf("FAILING-INPUT cycles %s: call succeeded although A cannot be produced", s.name)
 			}
 		}()
+	}
+}
+
+// --- Redefine family -------------------------------------------------------
+
+type rdConvIn1 struct {
+	Struct
+	A string
+	N float64 `argmapper:",typeOnly"`
+}
+type rdConvIn2 struct {
+	Struct
+	A string
+	C bool
+}
+type rdOutB struct {
+	Struct
+	B int
+}
+type rdTargetIn struct {
+	Struct
+	B int
+}
+type rdInX struct {
+	Struct
+	X float64
+}
+type rdOutA struct {
+	Struct
+	A string
+}
+
+// TestVerifNoPanicRedefine: Redefine over every combination of two targets,
+// one or two converters out of six (mixing named and type-only inputs of
+// different types) and every input filter over {string, float64, bool}
+// (plus no filter) must return normally, and so must a call of the function
+// it returns when given a value for every input it declares. Bounded: 2 x 21 x 9
+// scenarios, three repetitions each (map order).
+func TestVerifNoPanicRedefine(t *testing.T) {
+	type named struct {
+		name string
+		v    interface{}
+	}
+	targets := []named{
+		{"func(struct{B int}) int", func(in rdTargetIn) int { return in.B }},
+		{"func(int) int", func(b int) int { return b }},
+	}
+	convs := []named{
+		{"func(struct{A string; N float64 typeOnly}) struct{B int}", func(in rdConvIn1) rdOutB { return rdOutB{B: len(in.A) + int(in.N)} }},
+		{"func(struct{A string; N float64 typeOnly}) int", func(in rdConvIn1) int { return len(in.A) + int(in.N) }},
+		{"func(string, float64) int", func(s string, f float64) int { return len(s) + int(f) }},
+		{"func(struct{A string; C bool}) struct{B int}", func(in rdConvIn2) rdOutB { return rdOutB{B: len(in.A)} }},
+		{"func(bool) float64", func(b bool) float64 { return 1 }},
+		{"func(struct{X float64}) struct{A string}", func(in rdInX) rdOutA { return rdOutA{A: "x"} }},
+	}
+	ftypes := []reflect.Type{reflect.TypeOf(""), reflect.TypeOf(float64(0)), reflect.TypeOf(true)}
+	zero := func(v Value) Arg {
+		z := reflect.Zero(v.Type).Interface()
+		if v.Name != "" {
+			return NamedSubtype(v.Name, z, v.Subtype)
+		}
+		return TypedSubtype(z, v.Subtype)
+	}
+	for _, tg := range targets {
+		for i := 0; i < len(convs); i++ {
+			for j := i; j < len(convs); j++ {
+				for mask := 0; mask <= 8; mask++ {
+					cs := []named{convs[i]}
+					if j != i {
+						cs = append(cs, convs[j])
+					}
+					desc := tg.name + " with"
+					for _, c := range cs {
+						desc += " Converter(" + c.name + ")"
+					}
+					if mask < 8 {
+						desc += fmt.Sprintf(" FilterInput(types mask %03b of string/float64/bool)", mask)
+					} else {
+						desc += " no filter"
+					}
+					for rep := 0; rep < 3; rep++ {
+						failed := false
+						func() {
+							defer func() {
+								if r := recover(); r != nil {
+									failed = true
+									t.Errorf("FAILING-INPUT Redefine %s panicked: %v", desc, r)
+								}
+							}()
+							f, err := NewFunc(tg.v)
+							if err != nil {
+								return
+							}
+							var opts []Arg
+							for _, c := range cs {
+								opts = append(opts, Converter(c.v))
+							}
+							if mask < 8 {
+								var fs []FilterFunc
+								for b, ft := range ftypes {
+									if mask&(1<<uint(b)) != 0 {
+										fs = append(fs, FilterType(ft))
+									}
+								}
+								if len(fs) == 0 {
+									opts = append(opts, FilterInput(func(Value) bool { return false }))
+								} else {
+									opts = append(opts, FilterInput(FilterOr(fs...)))
+								}
+							}
+							rf, err := f.Redefine(opts...)
+							if err != nil || rf == nil {
+								return
+							}
+							var args []Arg
+							for _, v := range rf.Input().Values() {
+								args = append(args, zero(v))
+							}
+							_ = rf.Call(args...)
+						}()
+						if failed {
+							break
+						}
+					}
+				}
+			}
+		}
 	}
 }
